@@ -289,7 +289,7 @@ def select(prop, tier, only):
     if tier == "quick":
         hs = [h for h in hs if h.prop_tier.get(prop, h.tier) == "quick"]
     if only:
-        hs = [h for h in hs if only in h.fn]
+        hs = [h for h in hs if any(o and o in h.fn for o in only.split(","))]  # comma-separated substrings
     return hs
 
 
@@ -574,7 +574,7 @@ def conclude(R, prop, tier, seed, hs, smt_obls, smt_out, wall, partial):
         "wall_s": round(wall, 1),
         "violations": confirmed,
     }
-    if not partial and not os.environ.get("VERIF_REPO"):
+    if not partial and not os.environ.get("VERIF_REPO") and not os.environ.get("VERIF_NO_EVIDENCE"):
         os.makedirs(EVID, exist_ok=True)
         with open(os.path.join(EVID, prop + ".json"), "w") as fh:
             json.dump(ev, fh, indent=1)
